@@ -41,6 +41,8 @@ type RunConfig struct {
 	PCommitSubmit float64 `json:"p_commit_submit"`
 	Quorumless    bool    `json:"quorumless"`
 	NilTx         bool    `json:"nil_tx"`
+	PAsync        float64 `json:"p_async"`
+	PReFF         float64 `json:"p_reff"`
 	Variants      int     `json:"variants"`
 	TxStyle       string  `json:"tx_style"` // "unique" | "mixed"
 	FairSuffix    bool    `json:"fair_suffix"`
@@ -259,6 +261,10 @@ func (c *Cluster) genStep(g *genState) *Step {
 		if s := c.genByz(g); s != nil {
 			return s
 		}
+	case pick(cfg.PReFF):
+		if len(alive) > 0 {
+			return &Step{Op: "reff", A: alive[r.Intn(len(alive))].idx}
+		}
 	}
 	// default: a tick
 	if len(alive) == 0 {
@@ -283,6 +289,21 @@ func (c *Cluster) genStep(g *genState) *Step {
 			if b := c.byPub[p.PubKeyString()]; b != nil {
 				st.B = b.idx
 			}
+		}
+		if cfg.PAsync > 0 && st.B >= 0 && r.Bool(cfg.PAsync) && c.parkedCount(a) < 3 {
+			st.Kind = "async"
+			switch r.Intn(4) {
+			case 0:
+				st.N = r.Range(1, 10) // pull response held back
+			case 1:
+				st.D = int64(r.Range(1, 10)) // push acknowledgement held back
+			case 2:
+				st.N = -r.Range(1, 10) // pull request held back
+			default:
+				st.N = r.Range(1, 6)
+				st.D = -int64(r.Range(1, 6))
+			}
+			return st
 		}
 		st.Pull, st.Late = legFault(c)
 		if st.Pull != "late" {
